@@ -1,3 +1,4 @@
+use crate::rule::RuleSerializeError;
 use crate::{Rule, RuleCore};
 
 use ast_grep_core::language::Language;
@@ -99,6 +100,11 @@ impl<L: Language> RuleRegistration<L> {
 
   pub(crate) fn insert_rewriter(&self, id: &str, rewriter: RuleCore<L>) {
     self.rewriters.insert(id, rewriter).expect("should work");
+  }
+
+  /// check that the utilities referenced inside local utilities are defined
+  pub(crate) fn verify_local_utils(&self) -> Result<(), RuleSerializeError> {
+    self.local.0.values().try_for_each(|rule| rule.verify_util())
   }
 
   pub(crate) fn get_local_util_vars(&self) -> HashSet<&str> {
